@@ -79,6 +79,32 @@ func exploreSched(c *fw.Ctx, sc schedScenario) {
 	if only := os.Getenv("VERIF_ONLY_SCENARIO"); only != "" && !strings.HasPrefix(sc.ID, only) {
 		return
 	}
+	if !c.Thorough() {
+		exploreSchedBound(c, sc)
+		done := int64(sc.Bound)
+		if c.Expired() {
+			done = -1
+		}
+		c.Min("completed_preemption_bound", done)
+		c.Min("completed_preemption_bound:"+sc.ID, done)
+		return
+	}
+	// thorough: iterative context bounding — complete bound 0, then 1, … so that when the budget
+	// cuts the run the evidence names the highest bound explored completely
+	top, done := sc.Bound, int64(-1)
+	for b := 0; b <= top; b++ {
+		sc.Bound = b
+		exploreSchedBound(c, sc)
+		if c.Expired() {
+			break
+		}
+		done = int64(b)
+	}
+	c.Min("completed_preemption_bound", done)
+	c.Min("completed_preemption_bound:"+sc.ID, done)
+}
+
+func exploreSchedBound(c *fw.Ctx, sc schedScenario) {
 	level2 := 0
 	var explore func(n schedNode, depth int)
 	explore = func(n schedNode, depth int) {
